@@ -940,7 +940,14 @@ func c06xHandles(w *c06xWorld, h c06xHist) []*gorm.DB {
 // ---- oracle -----------------------------------------------------------------------------------------
 
 // c06xSameObs: the replay-alone oracle's comparison.  Latitudes: conjunct order (already canonical in Events/SQL).
+//   After a statement that FAILED with the same error in both runs the destination / RowsAffected are not compared: a failed
+//   finisher leaves whatever the destination variable and the chain instance held before (on a chain instance that already
+//   executed a query that is the earlier query's count), which no sentence of the property speaks about.
 func c06xSameObs(a, b c06xObs) bool {
+	if a.Err != "" && a.Err == b.Err {
+		a.Res, b.Res = "", ""
+		a.Rows, b.Rows = 0, 0
+	}
 	return reflect.DeepEqual(a, b)
 }
 
